@@ -20,6 +20,17 @@ class PathsRef:
         self.mapping = dict(getattr(mod, "path_mapping", {}))
         self.defaults = dict(getattr(mod, "path_defaults", {}))
         self.parsed = {t: self._parse(v) for t, v in self.templates.items()}
+        # the patterns the path configuration itself puts on its keys (its own pattern table applied to its templates): a Sid
+        # whose value has no spelling that this configuration accepts has no path there
+        self.own_patterns = {}
+        kp = getattr(mod, "key_patterns", None)
+        if isinstance(kp, dict):
+            from mc.ref.model import ref_inject
+            try:
+                inj = ref_inject(self.templates, kp)
+                self.own_patterns = {t: {p[1]: p[2] for p in self._parse(v) if p[0] == "key" and p[2]} for t, v in inj.items()}
+            except Exception:  # noqa
+                self.own_patterns = {}
 
     @staticmethod
     def _parse(t: str):
@@ -64,7 +75,16 @@ class PathsRef:
                         out.append(self.defaults[k])
                         continue
                     return None
-                out.append(self.to_path_value(k, fields[k], typ))
+                pv = self.to_path_value(k, fields[k], typ)
+                pat = self.own_patterns.get(typ, {}).get(k)
+                if pat and isinstance(pv, str):
+                    import re
+                    try:
+                        if not re.fullmatch(pat, pv):
+                            return None
+                    except re.error:
+                        pass
+                out.append(pv)
         return "".join(out)
 
     def root(self) -> str:
